@@ -479,10 +479,8 @@ class TorrentFile(MetaFile, ProgMixin):
                     "path":
                     os.path.relpath(path, self.path).split(os.sep),
                 })
-                if filesize < self.piece_length:
-                    remainder = self.piece_length - filesize
-                else:
-                    remainder = filesize % self.piece_length
+                # gap from the end of this file to the next piece boundary
+                remainder = -filesize % self.piece_length
                 if remainder:
                     info["files"].append({
                         "attr": "p",
